@@ -169,6 +169,12 @@ def piecewise(fn, is_x_place, lo, hi, max_steps=200000, resolve=None, _depth=0, 
             work.append((t[4], 0, dom, env))
         elif k == "ret":
             r = env.get(0)
+            if isinstance(r, tuple) and r and r[0] == "cmp":
+                tr, fa = _split(dom, r[1], r[2], r[3])
+                for part, bit in ((tr, 1), (fa, 0)):
+                    for a_, b_ in part:
+                        out.append((a_, b_, bit))
+                continue
             if not isinstance(r, int):
                 raise Unsupported("non-constant return for x in %s" % (dom[:2],))
             for a_, b_ in dom:
